@@ -38,8 +38,9 @@ Fixpoint all_chars (f : ascii -> bool) (s : string) : bool :=
 
 (* ---------- the fragment ---------- *)
 
-(* bytes that cannot end or split a plain scalar and carry no YAML meaning inside one *)
-Definition safe_char (c : ascii) : bool := is_alpha c || is_digit c || one_of c "_./+-~".
+(* bytes that cannot end or split a plain scalar and carry no YAML meaning inside one; ":,=@%" only
+   after the first byte (and ':' not as the last one: "a:" is a mapping key) *)
+Definition safe_char (c : ascii) : bool := is_alpha c || is_digit c || one_of c "_./+-~:,=@%".
 
 Definition first_ok (s : string) : bool :=
   match s with
@@ -70,7 +71,7 @@ Fixpoint strip_us (s : string) : string :=
   end.
 
 Definition in_fragment (s : string) : bool :=
-  first_ok s && all_chars safe_char s && negb (has_prefix "..." s) &&
+  first_ok s && all_chars safe_char s && negb (has_suffix ":" s) && negb (has_prefix "..." s) &&
   negb (ts_candidate s) && (String.length s <=? 18)%nat.
 
 (* ---------- the word table ---------- *)
